@@ -29,7 +29,13 @@ RULE = ("Tag multisets of size <= 3 (quick) / <= 4 (thorough; size 5 with plain 
         "None, 0, False) x value supplied raw / by a callable / as ValueObject / ValueObject over a callable / "
         "NumberValueObject(0) x providers {dict, ActiveTagValueProvider, Composite with the category in the first "
         "resp. the last member} each queried twice, plus a CompositeTagMatcher; such a category is known: its "
-        "positives do not match (excluded), its negatives do not match. Shipped providers: "
+        "positives do not match (excluded), its negatives do not match. Provider histories: every sequence of <= 2 (<= 3) earlier operations "
+        "over {get(c), get(c, None), get(c, '1'), c in p, p[c], an earlier matcher query on c, late registration of a "
+        "member provider / value that knows c} for c in {known, unknown category} and {items(), keys(), values(), "
+        "print_active_tags(p, categories), print_active_tags(p)} applied to dict / ActiveTagValueProvider / two "
+        "CompositeActiveTagValueProvider line-ups before each of 8 final tag lists (fresh provider per final list); "
+        "oracle = the formula on the CURRENT provider contents (a category is known iff some member knows it now). "
+        "Shipped providers: "
         "multisets <= 2 (<= 3) over ~100 tags (every category of behave.active_tag.python and .python_feature x "
         "prefixes x matching/non-matching/malformed values, versions below/equal/above the running interpreter) x "
         "{python dict, python_feature dict, ActiveTagValueProvider(python), Composite(python, python_feature)}, expected "
@@ -483,6 +489,138 @@ def check_falsy(case):
     return {"v": v, "nt": nt, "out": ("falsy", fname, obs[0][3]), "dg": obs, "n": n}
 
 
+# ---- provider histories ------------------------------------------------------------------------------
+# The matcher asks the provider with its own sentinel, but user code (environment.py, summaries, logging) looks
+# at the same provider object before: get() with ordinary defaults, containment, item access, items()/keys()/
+# values(), print_active_tags(), an earlier matcher query; and providers / values get registered late.  The verdict
+# must follow the statement's formula on the CURRENT contents of the provider whatever was asked before.
+H_OPS = tuple([(name, cat) for cat in ("a", "zz") for name in ("get", "get-None", "get-1", "in", "getitem", "query", "add")]
+              + [(name, None) for name in ("items", "keys", "values", "print-categories", "print-all")])
+H_PROVIDERS = ("dict", "atvp", "comp", "comp_dicts")
+H_FINALS = (("use.with_zz=1",), ("not.with_zz=1",), ("use.with_zz=2",), ("use.with_a=1",), ("use.with_a=2",),
+            ("not.with_a=1",), ("use.with_a=1", "use.with_zz=2"), ("use.with_b=x", "not.with_zz=1"))
+H_CLASSNAME = {"dict": "dict", "atvp": "ActiveTagValueProvider", "comp": "CompositeActiveTagValueProvider",
+               "comp_dicts": "CompositeActiveTagValueProvider"}
+
+
+def h_build(pkind):
+    if pkind == "dict":
+        return {"a": "1", "b": "x"}
+    if pkind == "atvp":
+        return TM.ActiveTagValueProvider({"a": "1", "b": (lambda: "x")})
+    if pkind == "comp":
+        return TM.CompositeActiveTagValueProvider([{"a": "1"}, TM.ActiveTagValueProvider({"b": (lambda: "x")})])
+    if pkind == "comp_dicts":
+        return TM.CompositeActiveTagValueProvider([{"a": "1"}, {"b": "x"}])
+    raise ValueError(pkind)
+
+
+def h_apply(provider, matcher, op, known):
+    """apply one operation to the real provider; update the reference contents `known`; -> observable outcome"""
+    import io
+    name, cat = op
+    try:
+        if name == "get":
+            return repr(provider.get(cat))
+        if name == "get-None":
+            return repr(provider.get(cat, None))
+        if name == "get-1":
+            return repr(provider.get(cat, "1"))
+        if name == "in":
+            return repr(cat in provider)
+        if name == "getitem":
+            return repr(provider[cat])
+        if name == "query":
+            return repr(query(matcher, ["use.with_%s=1" % cat, "not.with_%s=2" % cat]))
+        if name == "add":
+            # a provider / value that knows the category is registered late (same value as an existing entry)
+            if hasattr(provider, "value_providers"):
+                provider.value_providers.append({cat: "1"})
+            else:
+                provider[cat] = "1"
+            known[cat] = lambda tv: tv == "1"
+            return "added"
+        if name in ("items", "keys", "values"):
+            return repr(sorted(repr(x) for x in getattr(provider, name)()))
+        if name in ("print-categories", "print-all"):
+            saved = sys.stdout
+            sys.stdout = io.StringIO()
+            try:
+                if name == "print-all":
+                    TM.print_active_tags(provider)
+                else:
+                    TM.print_active_tags(provider, ["a", "zz"])
+                return sys.stdout.getvalue()
+            finally:
+                sys.stdout = saved
+    except Exception as ex:
+        return "EXC:%s" % type(ex).__name__
+    raise ValueError(op)
+
+
+def h_run(pkind, history, final):
+    provider = h_build(pkind)
+    matcher = TM.ActiveTagMatcher(provider)
+    known = {"a": (lambda tv: tv == "1"), "b": (lambda tv: tv == "x")}
+    trace = [h_apply(provider, matcher, H_OPS[i], known) for i in history]
+    return query(matcher, final), ref_exclude(final, known), known, trace
+
+
+def h_opclass(op):
+    name, cat = op
+    if name in ("get", "get-None", "get-1"):
+        name = "lookup-with-default"
+    if cat is None:
+        return name
+    return "%s(%s)" % (name, "known-category" if cat == "a" else "unknown-category")
+
+
+def check_history(case):
+    """one (provider kind, sequence of earlier operations): every final tag list, fresh provider each time"""
+    pkind, history = case
+    v, obs, n = [], [], 0
+    for final in H_FINALS:
+        got, want, known, trace = h_run(pkind, history, final)
+        n += 1
+        obs.append((final, got, trace))
+        if got[0] == "EXC" or got[0] != want or got[1] != (not got[0]):
+            # minimal trigger class: shortest sub-sequence of the history that still gives a wrong answer
+            sub = history
+            found = False
+            for k in range(0, len(history)):
+                for idx in itertools.combinations(range(len(history)), k):
+                    cand = tuple(history[i] for i in idx)
+                    g, w, _, _ = h_run(pkind, cand, final)
+                    if g[0] == "EXC" or g[0] != w or g[1] != (not g[0]):
+                        sub, found = cand, True
+                        break
+                if found:
+                    break
+            g, w, _, _ = h_run(pkind, sub, final)
+            status = []
+            for t in final:         # which tag is decided wrongly: ask about each tag alone after the same history
+                g1, w1, _, _ = h_run(pkind, sub, (t,))
+                if g1[0] == "EXC" or g1[0] != w1:
+                    c = parse_active(t, DEFAULT_PREFIXES, "=")[1]
+                    added = any(H_OPS[i] == ("add", c) for i in sub)
+                    status.append("added-later" if added else ("known" if c in ("a", "b") else "unknown"))
+            d = {"subcheck": "history", "provider": H_CLASSNAME[pkind],
+                 "history": ">".join(h_opclass(H_OPS[i]) for i in sub) or "none",
+                 "category": "+".join(sorted(set(status))) or "combination"}
+            if g[0] == "EXC":
+                d["clause"] = "raises"
+                d["exc"] = g[1]
+            elif g[0] != w:
+                d["clause"] = "verdict-depends-on-earlier-operations" if sub else "formula"
+            else:
+                d["clause"] = "should_run_with-is-not-negation"
+            v.append((d, "provider %s after %s: tags %r -> should_exclude_with/should_run_with = %r, the documented logic "
+                         "on the current provider contents says exclude=%s (minimal history: %s)"
+                      % (pkind, [H_OPS[i] for i in history], list(final), got, want, [H_OPS[i] for i in sub])))
+    nt = ("history", case) if history else None
+    return {"v": v, "nt": nt, "out": ("history", tuple(o[1] for o in obs[:3])), "dg": obs, "n": n}
+
+
 # ---- shipped providers ---------------------------------------------------------------------------
 def _probe_features():
     import keyword
@@ -632,6 +770,7 @@ def run(ctx):
     ssize = 2 if ctx.quick else 3
     ntags = len(shipped_tags())
     ctx.bounds = {"multiset_size": size, "multiset_size_plain_strings": size if ctx.quick else 5,
+                  "history_length": 2 if ctx.quick else 3, "history_operations": ["%s(%s)" % o for o in H_OPS],
                   "falsy_current_values": [n for n, _ in FALSY_VALUES], "falsy_alphabet": list(FALSY_ALPHABET), "alphabet": list(ALPHABET), "assignments": len(ASSIGNMENTS),
                   "value_kinds": list(KINDS), "providers": ["dict", "ActiveTagValueProvider", "Composite(2)"],
                   "bool_multiset_size": bsize, "shipped_tag_pool": ntags, "shipped_multiset_size": ssize}
@@ -649,6 +788,10 @@ def run(ctx):
     ctx.sweep(check_falsy, ((ms, fi, wb) for ms in multisets(len(FALSY_ALPHABET), size)
                             for fi in range(len(FALSY_VALUES)) for wb in (0, 1)),
               chunk=32, name="known category with None/falsy current value")
+    hlen = 2 if ctx.quick else 3
+    ctx.sweep(check_history, ((pk, h) for k in range(0, hlen + 1) for h in itertools.product(range(len(H_OPS)), repeat=k)
+                              for pk in H_PROVIDERS),
+              chunk=32, name="provider histories before the matcher query")
     ctx.sweep(check_shipped, multisets(ntags, ssize), chunk=64, name="shipped providers")
 
     py, pf = shipped_reference()
@@ -659,6 +802,7 @@ def run(ctx):
     ctx.guard(sum(1 for k in ctx.nt if k[0] == "main") > 5000,
               "at least 5000 distinct (multiset, assignment) with an active tag of a known category")
     ctx.guard(sum(1 for k in ctx.nt if k[0] == "bool") > 500, "at least 500 non-trivial boolean cases")
+    ctx.guard(sum(1 for k in ctx.nt if k[0] == "history") > 1000, "at least 1000 non-empty provider histories")
     ctx.guard(sum(1 for k in ctx.nt if k[0] == "falsy") > 2000, "at least 2000 non-trivial None/falsy-value cases")
     fo = set(k[1:] for k in ctx.outcomes if k[0] == "falsy")
     ctx.guard(all((name, (True, False)) in fo and (name, (False, True)) in fo for name, _ in FALSY_VALUES),
